@@ -24,6 +24,9 @@ type Broker struct {
 	mu      sync.Mutex
 	n       int
 	Conns   map[string]*FConn
+	// PeerPrep, when set, configures the next attached peer before its reader
+	// starts (one-shot).
+	PeerPrep func(p *Peer)
 	ClientC map[string]*broker.Client
 }
 
@@ -56,6 +59,14 @@ func (b *Broker) Attach(name string, prep func(fc *FConn, brokerEnd, peerEnd *wi
 	b.Conns[name] = fc
 	b.mu.Unlock()
 	peer := NewPeer(name, pe, b.Log)
+	b.mu.Lock()
+	pp := b.PeerPrep
+	b.PeerPrep = nil
+	b.mu.Unlock()
+	if pp != nil {
+		pp(peer)
+	}
+	peer.Start()
 	if !b.Engine.Handle(fc) {
 		peer.Close()
 	}
@@ -71,14 +82,24 @@ type ConnectOpts struct {
 	User      string
 	Pass      string
 	AutoAck   bool
+	OnPeer    func(p *Peer) // configure the peer before its reader starts
 }
 
 // Connect attaches a peer, sends CONNECT and waits for CONNACK. It returns
 // the peer, the CONNACK (nil if the connection ended first) and an error for
 // watchdog expiry.
 func (b *Broker) Connect(name string, o ConnectOpts, prep func(fc *FConn, brokerEnd, peerEnd *wire.End)) (*Peer, *FConn, *packet.Connack, error) {
+	if o.AutoAck || o.OnPeer != nil {
+		b.mu.Lock()
+		b.PeerPrep = func(p *Peer) {
+			p.AutoAck = o.AutoAck
+			if o.OnPeer != nil {
+				o.OnPeer(p)
+			}
+		}
+		b.mu.Unlock()
+	}
 	p, fc := b.Attach(name, prep)
-	p.AutoAck = o.AutoAck
 	c := &packet.Connect{ClientID: o.ID, CleanSession: o.Clean, KeepAlive: o.KeepAlive, Will: o.Will, Username: o.User, Password: o.Pass, Version: 4}
 	if err := p.Send(c); err != nil {
 		return p, fc, nil, nil
